@@ -131,7 +131,8 @@ Qed.
 Lemma h_remove_at_wf : handlers_wf h_remove_at.
 Proof.
   constructor; simpl; try (intros; discriminate).
-  intros b t a xs' Hb _ Ha H. inversion H; subst. apply Forall_app. split; assumption.
+  - intros b name t a fs' Hb _ Ha H. inversion H; subst. apply Forall_app. split; assumption.
+  - intros b t a xs' Hb _ Ha H. inversion H; subst. apply Forall_app. split; assumption.
 Qed.
 
 (* the re-encoded INC result is a well-formed scalar *)
